@@ -137,7 +137,7 @@ func zero(t types.Type) value {
 		}
 		return s
 	case *types.Chan:
-		return (chan value)(nil)
+		return (*chanv)(nil)
 	case *types.Map:
 		return (*mapv)(nil)
 	case *types.Signature:
